@@ -35,7 +35,8 @@ Record st := mkSt {
   outq : list (N * N); outcap : N; held : list (N * N); fbq : list N; fblimit : nat;
   pcs : pc; ncalls : nat;
   delivered : list (N * N);            (* ghost: everything ever written to the output, in order *)
-  calls : list (list N * N)            (* ghost: (priorities, dividend) of every divider call, newest first *)
+  calls : list (list N * N);           (* ghost: (priorities, dividend) of every divider call, newest first *)
+  written : N -> list N                (* ghost: everything producers ever wrote to the input of a priority, in order *)
 }.
 
 Definition upd {A} (f : N -> A) (k : N) (v : A) : N -> A := fun x => if N.eqb x k then v else f x.
@@ -45,25 +46,25 @@ Definition filled (t : dist) (ps : list N) : bool := forallb (fun p => negb (get
 
 Definition with_pc (s : st) (c : pc) : st :=
   mkSt (H s) (prios s) (strategic s) (actual s) (tactic s) (inq s) (closed s) (drained s) (buffered s)
-       (outq s) (outcap s) (held s) (fbq s) (fblimit s) c (ncalls s) (delivered s) (calls s).
+       (outq s) (outcap s) (held s) (fbq s) (fblimit s) c (ncalls s) (delivered s) (calls s) (written s).
 Definition with_tac (s : st) (t : dist) (c : pc) : st :=
   mkSt (H s) (prios s) (strategic s) (actual s) t (inq s) (closed s) (drained s) (buffered s)
-       (outq s) (outcap s) (held s) (fbq s) (fblimit s) c (ncalls s) (delivered s) (calls s).
+       (outq s) (outcap s) (held s) (fbq s) (fblimit s) c (ncalls s) (delivered s) (calls s) (written s).
 Definition log_call (s : st) (ps : list N) (d : N) : st :=
   mkSt (H s) (prios s) (strategic s) (actual s) (tactic s) (inq s) (closed s) (drained s) (buffered s)
-       (outq s) (outcap s) (held s) (fbq s) (fblimit s) (pcs s) (S (ncalls s)) (delivered s) ((ps, d) :: calls s).
+       (outq s) (outcap s) (held s) (fbq s) (fblimit s) (pcs s) (S (ncalls s)) (delivered s) ((ps, d) :: calls s) (written s).
 Definition pop_fb (s : st) (p : N) (q : list N) (c : pc) : st :=
   mkSt (H s) (prios s) (strategic s) (dec (actual s) p) (tactic s) (inq s) (closed s) (drained s) (buffered s)
-       (outq s) (outcap s) (held s) q (fblimit s) c (ncalls s) (delivered s) (calls s).
+       (outq s) (outcap s) (held s) q (fblimit s) c (ncalls s) (delivered s) (calls s) (written s).
 Definition pop_in (s : st) (p : N) (q : list N) (c : pc) : st :=
   mkSt (H s) (prios s) (strategic s) (actual s) (tactic s) (upd (inq s) p q) (closed s) (drained s) (buffered s)
-       (outq s) (outcap s) (held s) (fbq s) (fblimit s) c (ncalls s) (delivered s) (calls s).
+       (outq s) (outcap s) (held s) (fbq s) (fblimit s) c (ncalls s) (delivered s) (calls s) (written s).
 Definition mark_drained (s : st) (p : N) (c : pc) : st :=
   mkSt (H s) (prios s) (strategic s) (actual s) (tactic s) (inq s) (closed s) (upd (drained s) p true) (buffered s)
-       (outq s) (outcap s) (held s) (fbq s) (fblimit s) c (ncalls s) (delivered s) (calls s).
+       (outq s) (outcap s) (held s) (fbq s) (fblimit s) c (ncalls s) (delivered s) (calls s) (written s).
 Definition push_out (s : st) (p x : N) (c : pc) : st :=
   mkSt (H s) (prios s) (strategic s) (inc (actual s) p) (dec (tactic s) p) (inq s) (closed s) (drained s) (buffered s)
-       (outq s ++ [(p, x)]) (outcap s) (held s) (fbq s) (fblimit s) c (ncalls s) (delivered s ++ [(p, x)]) (calls s).
+       (outq s ++ [(p, x)]) (outcap s) (held s) (fbq s) (fblimit s) c (ncalls s) (delivered s ++ [(p, x)]) (calls s) (written s).
 
 (* calcTacticByAddUpToStrategic *)
 Fixpoint add_up (ps : list N) (actual strategic tactic : dist) (picked : N) : option (dist * N) :=
@@ -162,16 +163,17 @@ Definition env_step (s : st) (o : env_op) : option st :=
   match o with
   | Put p x => if closed s p then None else
       Some (mkSt (H s) (prios s) (strategic s) (actual s) (tactic s) (upd (inq s) p (inq s p ++ [x])) (closed s) (drained s) (buffered s)
-                 (outq s) (outcap s) (held s) (fbq s) (fblimit s) (pcs s) (ncalls s) (delivered s) (calls s))
+                 (outq s) (outcap s) (held s) (fbq s) (fblimit s) (pcs s) (ncalls s) (delivered s) (calls s)
+                 (upd (written s) p (written s p ++ [x])))
   | Close p =>
       Some (mkSt (H s) (prios s) (strategic s) (actual s) (tactic s) (inq s) (upd (closed s) p true) (drained s) (buffered s)
-                 (outq s) (outcap s) (held s) (fbq s) (fblimit s) (pcs s) (ncalls s) (delivered s) (calls s))
+                 (outq s) (outcap s) (held s) (fbq s) (fblimit s) (pcs s) (ncalls s) (delivered s) (calls s) (written s))
   | Take => match outq s with [] => None | px :: q =>
       Some (mkSt (H s) (prios s) (strategic s) (actual s) (tactic s) (inq s) (closed s) (drained s) (buffered s)
-                 q (outcap s) (px :: held s) (fbq s) (fblimit s) (pcs s) (ncalls s) (delivered s) (calls s)) end
+                 q (outcap s) (px :: held s) (fbq s) (fblimit s) (pcs s) (ncalls s) (delivered s) (calls s) (written s)) end
   | Release p => match remove1 p (held s) with None => None | Some h =>
       Some (mkSt (H s) (prios s) (strategic s) (actual s) (tactic s) (inq s) (closed s) (drained s) (buffered s)
-                 (outq s) (outcap s) h (fbq s ++ [p]) (fblimit s) (pcs s) (ncalls s) (delivered s) (calls s)) end
+                 (outq s) (outcap s) h (fbq s ++ [p]) (fblimit s) (pcs s) (ncalls s) (delivered s) (calls s) (written s)) end
   | Tick =>
       match pcs s with
       | Idle => Some (with_pc s (LimFb (fblimit s)))
@@ -195,7 +197,7 @@ End Step.
 Definition init_state (ps : list N) (h : N) (sorted : list N) (strat : dist) (buf : N -> bool) : st :=
   let cap := divide_with_min h 10 (N.of_nat (length ps)) in
   mkSt h sorted strat [] [] (fun _ => []) (fun _ => false) (fun _ => false) buf
-       [] cap [] [] (N.to_nat cap) Calc 1 [] [(sorted, h)].
+       [] cap [] [] (N.to_nat cap) Calc 1 [] [(sorted, h)] (fun _ => []).
 
 Definition new_v2 (dv : nat -> Divider) (ps : list N) (h : N) (buf : N -> bool) : st + new_err :=
   match prepare_v2 (dv O) ps h with
